@@ -17,6 +17,9 @@ THEOREMS = [
     "PyTrie.Props.C02.root_batched",
     "PyTrie.Props.C02.root_empty",
     "PyTrie.Props.C02.blank_root_constant",
+    "PyTrie.Props.C02.root_is_yellow_paper_trie",
+    "PyTrie.Props.C02.node_is_yellow_paper_c",
+    "PyTrie.Props.C02.ref_is_yellow_paper_n",
 ]
 RULE = ("histories as for C01 (4 configurations) with values aimed at the 31/32/33-byte embedding boundary of leaf, "
         "extension and branch encodings; after every operation root_hash and the body stored under it are compared "
